@@ -46,6 +46,8 @@ FLAVOURS = {
     "miri-all": _fl("miri-all", ["cargo", "+nightly", "miri", "run", "--quiet", "--features", "extra", "--"], None),
     "miri-i686": _fl("miri", ["cargo", "+nightly", "miri", "run", "--quiet", "--target", "i686-unknown-linux-gnu", "--"], None),
     "miri-be": _fl("miri", ["cargo", "+nightly", "miri", "run", "--quiet", "--target", "powerpc64-unknown-linux-gnu", "--"], None),
+    # 32-bit big-endian (the length/tag packing of the second word is endian-dependent)
+    "miri-be32": _fl("miri", ["cargo", "+nightly", "miri", "run", "--quiet", "--target", "armeb-unknown-linux-gnueabi", "--"], None),
 }
 
 MIRI_BASE_FLAGS = "-Zmiri-strict-provenance -Zmiri-symbolic-alignment-check"
@@ -165,9 +167,9 @@ def sanitizer_reports(err):
             if mm:
                 where = mm.group(1)
         fn = ""
-        mf = re.search(r"inside `([^`]*lean_string[^`]*)`", tail)
+        mf = re.search(r"inside `([^`]*lean_string[^`]*)`", tail) or re.search(r"\n\s+\d+: (<?lean_string::[^\n]+)", tail)
         if mf:
-            fn = mf.group(1)
+            fn = mf.group(1).strip()
         reps.append({"tool": "miri", "kind": kind[:300], "where": where[:300], "fn": fn[:200],
                      "unsupported": kind.startswith("unsupported") or kind.startswith("resource")})
     for m in re.finditer(r"ERROR: (AddressSanitizer|LeakSanitizer): ([^\n]*)", err):
